@@ -11,28 +11,40 @@ from .common import Corr, f2hex, hex2f, flist
 
 ID = "C19"
 LEAN_MODULES = ["TempestVerif.Props.C19"]
-RULE = ("regime T (fit-T): generated data sets, d=1..6, n in [4d,200], laws gauss / heavy (t with 2,3,5 dof) / skew (lognormal) / "
-        "contam (5% outliers x20), random mixing matrix (cond <= ~30), per-coordinate scales 10^[-3,3] and shifts; random "
-        "tolerance in {1e-6,1e-3,1e-9} and max_iter in {100 (60%),1,2,3,5}; the real fit_mvstud runs with scipy.optimize.bisect and "
-        "np.linalg.solve observed through proxy modules installed in tempest.student only; the Float twin replays the loop on the "
-        "recorded nu tape and must give the same stop reason, the same number of iterates, every (mu,Sigma) iterate and the "
-        "returned triple within 1e-8*(scale) (per entry: sqrt(S_aa S_bb), resp. sd_a + 1e-4*max|x_a|). Non-trivial = the loop made "
-        ">= 1 update (not only the initial state).  regime dof (dof-fallback): ModeStatistics.from_particles/from_global with "
+RULE = ("regime T (fit-T): generated data sets, d=1..6; 80%: n in [4d,200], laws gauss / heavy (t with 2,3,5 dof) / skew (lognormal) / "
+        "contam (5% outliers x20), random mixing matrix (cond <= ~30), per-coordinate scales 10^[-3,3] and shifts; 20%: degenerate sets "
+        "(n >= 2: at most d distinct points duplicated, points in a proper affine subspace, a constant coordinate, n = d+1 or d+2, all "
+        "rows identical); random tolerance in {1e-6,1e-3,1e-9} and max_iter in {100 (60%),1,2,3,5}; in 10% of the cases a fault is "
+        "injected into one call of opt_nu's bisect (a ValueError, or the value -dim that zeroes every weight so that new_Sigma = 0 is "
+        "rejected by the Cholesky test). The real fit_mvstud runs with scipy.optimize.bisect, np.linalg.solve and np.linalg.cholesky "
+        "observed through proxy modules installed in tempest.student only (the proxies see the exceptions the real code catches); the "
+        "Float twin replays the loop on the recorded opt_nu tape (value / inf / fail) and must give the same exit (conv, maxit, inf, "
+        "notpd = solve raised, fail = bisect raised, chol = new_Sigma rejected), the same number of iterates, the same returned nu, the "
+        "same warning flag, every (mu,Sigma) iterate and the returned triple within 1e-8*(scale) (per entry: (sd_a + 1e-4*max|x_a|) * "
+        "(sd_b + ...)). Where a solve / Cholesky decision was taken on a matrix with rcond < 1e-6 (or a column is constant up to "
+        "rounding but not exactly representable) the decision is rounding noise on both sides: counted as near-tie, states up to that "
+        "point still compared. Non-trivial = the loop made >= 1 update or left through one of the three failure exits.  "
+        "regime dof (dof-fallback): ModeStatistics.from_particles/from_global with "
         "tempest.modes.fit_mvstud stubbed to return inf / nan / finite dof and np.random.choice on a tape; the data handed to "
         "the fit must be u[tape] exactly and degrees_of_freedom must equal the Dof model bit-for-bit. Non-trivial = some mode had "
         "a non-finite dof.")
 MODELLED = ["opt_nu (scipy.special.psi + scipy.optimize.bisect on [1e-300, 1e6], incl. the sign test that yields inf) is NOT modelled: "
-            "the nu value of every iteration is recorded from the real run and fed to the model as a tape",
-            "np.linalg.solve (LAPACK LU with partial pivoting) is modelled by the Gauss-Jordan inverse without pivoting: agreement "
-            "only to tolerance, data sets are generated with moderate conditioning",
+            "what it did in every iteration (value / inf / raised ValueError) is recorded from the real run and fed to the model as a tape",
+            "np.linalg.solve (LAPACK LU with partial pivoting; raises only on an exactly zero pivot) is modelled by the Gauss-Jordan inverse "
+            "without pivoting (fails on a pivot that is not > 0); np.linalg.cholesky succeeding is modelled by all Gauss-Jordan pivots being "
+            "> 0: the same criteria in exact arithmetic, agreement in floating point only away from singular matrices (near-ties otherwise); "
+            "numpy's cholesky does not raise on NaN input whereas the twin rejects NaN -- NaN matrices are not generated",
             "np.median / np.cov / np.var / np.dot (pairwise and BLAS summation orders) are modelled by sequential sums: tolerance",
             "the theorems (Props/C19.lean) are about the matrix form over the reals of the same formulas as the executable list twin "
             "(Model/Student.lean): one loop iteration of the twin is proved equal to the matrix iteration (C19_twin_step, given that the "
-            "twin's Gauss-Jordan inverse is the inverse); initialisation, stop rule and loop control of the two forms are related by inspection",
+            "twin's Gauss-Jordan inverse is the inverse); initialisation, stop rule, exits and loop control of the two forms are related by inspection",
             "recovery of the generating parameters of large t samples is not proved: fixed-seed witness F19 + loose sanity check in search"]
-ASSUMPTIONS = ["data sets are non-degenerate (not contained in an affine hyperplane) and n >= 2",
-               "opt_nu answers in (0, inf] (contract of scipy's bisection bracket), np.median is affine-equivariant and lies in "
+ASSUMPTIONS = ["n >= 2 and finite data; positive definiteness of every iterate additionally needs non-degenerate data (not contained in an "
+               "affine hyperplane); for degenerate data the theorems give: location in the box, symmetric positive semidefinite scale, and "
+               "positive definite unless the initial matrix is singular (then the initial state and nu = 20 are returned)",
+               "opt_nu answers in (0, inf] when it answers (contract of scipy's bisection bracket), np.median is affine-equivariant and lies in "
                "[min, max] (hypotheses hopt / hmed / hmedbox of the theorems)",
+               "in exact arithmetic np.linalg.solve raises iff Sigma is singular and np.linalg.cholesky raises iff new_Sigma is not positive definite",
                "the configured dof_fallback is a finite number"]
 
 LAWS = ("gauss", "heavy", "skew", "contam")
@@ -79,39 +91,113 @@ class _Proxy:
         return getattr(object.__getattribute__(self, "_t"), k)
 
 
-def run_real(data, tol=1e-6, maxit=100, observe=True):
-    """real fit_mvstud with the nu sequence and the (Sigma, diffs) of every iteration observed"""
+DEGEN = ("dup", "collinear", "const", "tiny_n", "allsame")
+
+
+def gen_degenerate(seed, d, n, kind):
+    """degenerate / barely determined data sets (n >= 2) on which fit_mvstud must return instead of raising"""
+    g = np.random.default_rng(seed)
+    if kind == "dup":            # at most d distinct points, duplicated
+        k = min(n, int(g.integers(1, d + 1)))
+        pts = g.standard_normal((k, d)) * 3.0 + g.uniform(-5, 5, size=d)
+        x = pts[g.integers(0, k, size=n)]
+        x[:k] = pts
+    elif kind == "collinear":    # points in a proper affine subspace (exactly, up to rounding of the map)
+        r = int(g.integers(1, d)) if d > 1 else 1
+        z = g.standard_normal((n, r))
+        B = g.integers(-3, 4, size=(r, d)).astype(float)
+        x = z @ B + g.integers(-4, 5, size=d)
+        if d == 1:
+            x = np.repeat(x[:1], n, axis=0)
+    elif kind == "const":        # one coordinate constant
+        x = g.standard_normal((n, d)) * 2.0
+        x[:, int(g.integers(0, d))] = float(g.integers(-3, 4))
+    elif kind == "tiny_n":       # n barely above d (the caller chose n)
+        x = g.standard_normal((n, d)) * np.exp(g.uniform(-2, 2, size=d))
+    else:                        # all rows identical
+        row = g.standard_normal((1, d)) if g.random() < 0.5 else g.integers(-5, 6, size=(1, d)).astype(float)
+        x = np.repeat(row, n, axis=0)
+    return np.ascontiguousarray(x, dtype=float)
+
+
+def run_real(data, tol=1e-6, maxit=100, observe=True, fail_at=None, fail_kind="raise"):
+    """real fit_mvstud with every iteration observed: the (Sigma, diffs) handed to np.linalg.solve (and whether it
+    raised), what opt_nu's bisect did (value / raised; `fail_at=j` injects a ValueError into the j-th bisect call, as
+    scipy raises it for a bracket without sign change), the matrix handed to np.linalg.cholesky (and whether it raised).
+    The real code catches these exceptions; exceptions that escape fit_mvstud propagate to the caller."""
     import tempest.student as st
     from scipy import optimize
-    nus, solves = [], []
-
-    def rec_bisect(f, a, b, *args, **kw):
-        r = optimize.bisect(f, a, b, *args, **kw)
-        nus.append(float(r))
-        return r
+    its = []          # one dict per started iteration
 
     def rec_solve(S, D):
-        solves.append((np.array(S, dtype=float, copy=True), np.array(D, dtype=float, copy=True)))
-        return np.linalg.solve(S, D)
+        its.append({"S": np.array(S, dtype=float, copy=True), "D": np.array(D, dtype=float, copy=True), "ev": None})
+        try:
+            return np.linalg.solve(S, D)
+        except np.linalg.LinAlgError:
+            its[-1]["ev"] = "notpd"
+            raise
+
+    def rec_bisect(f, a, b, *args, **kw):
+        nb = sum(1 for t in its if isinstance(t["ev"], float) or t["ev"] == "fail")
+        if fail_at is not None and nb == fail_at:
+            if fail_kind == "zero":
+                dim = its[-1]["S"].shape[0]
+                its[-1]["ev"] = -float(dim)
+                return -float(dim)
+            its[-1]["ev"] = "fail"
+            raise ValueError("f(a) and f(b) must have different signs (injected)")
+        try:
+            r = optimize.bisect(f, a, b, *args, **kw)
+        except ValueError:
+            its[-1]["ev"] = "fail"
+            raise
+        its[-1]["ev"] = float(r)
+        return r
+
+    def rec_chol(M):
+        its[-1]["cand"] = np.array(M, dtype=float, copy=True)
+        try:
+            L = np.linalg.cholesky(M)
+        except np.linalg.LinAlgError:
+            its[-1]["chol_ok"] = False
+            raise
+        its[-1]["chol_ok"] = True
+        return L
 
     buf = io.StringIO()
     with contextlib.ExitStack() as es:
         if observe:
-            es.enter_context(common.patched(st, "np", _Proxy(np, linalg=_Proxy(np.linalg, solve=rec_solve))))
+            es.enter_context(common.patched(st, "np", _Proxy(np, linalg=_Proxy(np.linalg, solve=rec_solve, cholesky=rec_chol))))
             es.enter_context(common.patched(st, "optimize", _Proxy(optimize, bisect=rec_bisect)))
         es.enter_context(contextlib.redirect_stdout(buf))
         es.enter_context(warnings.catch_warnings())
         warnings.simplefilter("ignore")
         mu, S, nu = st.fit_mvstud(np.array(data, dtype=float), tolerance=tol, max_iter=maxit)
     assert st.np is np and st.optimize is optimize
-    return {"mu": np.asarray(mu, dtype=float), "S": np.atleast_2d(np.asarray(S, dtype=float)), "nu": float(nu),
-            "nus": nus, "solves": solves, "warned": "did not converge" in buf.getvalue()}
+    nu = float(nu)
+    if its and its[-1]["ev"] is None:
+        its[-1]["ev"] = "inf"         # solve succeeded, bisect was not reached: opt_nu answered inf (early return)
+    warned = "did not converge" in buf.getvalue()
+    last = its[-1] if its else None
+    if last is None:
+        stop = "maxit" if warned else "conv"
+    elif last["ev"] in ("notpd", "fail", "inf"):
+        stop = last["ev"]
+    elif last.get("chol_ok") is False:
+        stop = "chol"
+    else:
+        stop = "maxit" if warned else "conv"
+    return {"mu": np.asarray(mu, dtype=float), "S": np.atleast_2d(np.asarray(S, dtype=float)), "nu": nu,
+            "its": its, "warned": warned, "stop": stop,
+            "tape": [t["ev"] for t in its if t["ev"] != "notpd"],
+            "nus": [t["ev"] for t in its if isinstance(t["ev"], float)],
+            "solves": [(t["S"], t["D"]) for t in its]}
 
 
 def _line(data, tape, tol, maxit):
     n, d = data.shape
     return (f"mvst.F d={d} n={n} data={flist(data.ravel().tolist(), f2hex)} "
-            f"nus={flist(tape, lambda v: 'inf' if v == 'inf' else f2hex(v))} tol={f2hex(tol)} maxit={maxit}")
+            f"nus={flist(tape, lambda v: v if isinstance(v, str) else f2hex(v))} tol={f2hex(tol)} maxit={maxit}")
 
 
 def _cmp_state(data, mu_m, S_m, mu_r, S_r, sd0):
@@ -121,44 +207,100 @@ def _cmp_state(data, mu_m, S_m, mu_r, S_r, sd0):
     worst = 0.0
     for a in range(d):
         sc = sd0[a] + sdr[a] + 1e-4 * float(np.max(np.abs(data[:, a])))
+        if sc == 0.0:
+            sc = 1e-300
         worst = max(worst, abs(mu_m[a] - mu_r[a]) / sc)
         for b in range(d):
-            worst = max(worst, abs(S_m[a][b] - S_r[a][b]) / (sdr[a] * sdr[b] + sd0[a] * sd0[b]))
+            sb = sd0[b] + sdr[b] + 1e-4 * float(np.max(np.abs(data[:, b])))
+            sab = sc * sb
+            worst = max(worst, abs(S_m[a][b] - S_r[a][b]) / (sab if sab > 0 else 1e-300))
     return worst
 
 
 TOL_T = 1e-8
+RCOND_MIN = 1e-6
 
 
-def _check_fit_case(c, data, tol, maxit, line, ans, r):
+def _rcond(M):
+    """lambda_min / lambda_max of the correlation-normalised matrix (0 if some diagonal entry is not > 0 or not finite)"""
+    M = np.atleast_2d(M)
+    dg = np.diag(M)
+    if not np.all(np.isfinite(M)) or np.any(dg <= 0):
+        return 0.0
+    s = 1.0 / np.sqrt(dg)
+    ev = np.linalg.eigvalsh(M * np.outer(s, s))
+    return max(0.0, float(ev[0] / ev[-1])) if ev[-1] > 0 else 0.0
+
+
+def _comparable(r, data):
+    """number L of leading states on which model and real code must agree to tolerance, and whether the whole run is
+    decidable (no solve / Cholesky decision taken on an ill-conditioned matrix).  State j+1 is computed from a solve with
+    Sigma_j and accepted by a Cholesky test of the candidate; once one of these matrices has rcond < 1e-6 (and is not the
+    exactly singular initial matrix with a zero-variance coordinate, on which both sides fail deterministically) the
+    PD decisions and everything computed afterwards are rounding noise on both sides: a near-tie, not a disagreement."""
+    its = r["its"]
+    if not its:
+        return 1, True
+    S0 = its[0]["S"]
+    # a coordinate whose spread is at rounding level of its magnitude (constant column): whether its variance comes out
+    # as exactly 0 (solve raises) or as ~1e-32 depends on the summation order of the mean
+    flat = np.sqrt(np.abs(np.diag(S0))) <= 1e-9 * np.max(np.abs(data), axis=0)
+    if np.any(flat):
+        n = data.shape[0]
+        exact = all(np.all(data[:, a] == data[0, a]) and float(data[0, a]).is_integer() and abs(data[0, a]) * n < 2.0 ** 50
+                    for a in np.where(flat)[0])
+        # exactly constant integer-valued column: mean and variance are exact on both sides, the initial matrix has an
+        # exactly zero row, solve raises / the model's pivot is exactly 0 -- a deterministic decision
+        return (None, True) if exact and its[0]["ev"] == "notpd" else (1, False)
+    if _rcond(S0) < RCOND_MIN:
+        return 1, False
+    for j, t in enumerate(its):
+        if "cand" in t and np.all(t["cand"] == 0.0):
+            return None, True          # the zero matrix is rejected deterministically by both sides; the run ends there
+        if "cand" in t and _rcond(t["cand"]) < RCOND_MIN:
+            return j + 1, False
+    return None, True
+
+
+def _check_fit_case(c, data, tol, maxit, line, ans, r, degenerate):
     n, d = data.shape
+    info = dict(data_hex=[f2hex(v) for v in data.ravel()], shape=[n, d], tol=tol, maxit=maxit, degenerate=degenerate)
     toks = ans.split(" ")
-    if len(toks) != 5:
-        c.disagree(input=line[:300], model=ans, impl="real run ok", data_hex=[f2hex(v) for v in data.ravel()], shape=[n, d],
-                   tol=tol, maxit=maxit)
+    if len(toks) != 6:
+        c.disagree(input=line[:300], model=ans, impl="real run ok", **info)
         return
     stop, k = toks[0], int(toks[1])
-    want_stop = "inf" if r["nu"] == math.inf else ("maxit" if r["warned"] else "conv")
     mus = [hex2f(h) for h in common.parse_list(toks[2], str)]
     sig = [hex2f(h) for h in common.parse_list(toks[3], str)]
     nu_m = math.inf if toks[4] == "inf" else hex2f(toks[4])
-    # states the real run went through: one per solve call, plus the returned one unless it returned early (inf)
-    real_states = []
-    for (S, D) in r["solves"]:
-        real_states.append((data[0, :] - D[:, 0], S))
-    if r["nu"] != math.inf:
+    warned_m = toks[5] == "1"
+    # states the real run went through: one per started iteration (what np.linalg.solve was handed), plus the returned
+    # one when the loop ended through its test (on every other exit the returned state is the last one)
+    real_states = [(data[0, :] - t["D"][:, 0], t["S"]) for t in r["its"]]
+    if r["stop"] in ("conv", "maxit"):
         real_states.append((r["mu"], r["S"]))
+    L, decidable = _comparable(r, data)
     problems = []
-    if stop != want_stop:
-        problems.append(f"stop reason model={stop} real={want_stop}")
-    if k != len(real_states):
-        problems.append(f"iterates model={k} real={len(real_states)}")
-    if not (nu_m == r["nu"]):
-        problems.append(f"final nu model={nu_m!r} real={r['nu']!r}")
+    if decidable:
+        if stop != r["stop"]:
+            problems.append(f"stop reason model={stop} real={r['stop']}")
+        if k != len(real_states):
+            problems.append(f"iterates model={k} real={len(real_states)}")
+        if not (nu_m == r["nu"]):
+            problems.append(f"returned nu model={nu_m!r} real={r['nu']!r}")
+        if warned_m != r["warned"]:
+            problems.append(f"warning printed model={warned_m} real={r['warned']}")
+        L = len(real_states)
+    else:
+        c.near_ties += 1
+        c.count("near_tie_illconditioned")
+        if k < L:
+            problems.append(f"model stopped after {k} states, before the first ill-conditioned decision (state {L})")
     worst = 0.0
     if not problems:
         sd0 = np.sqrt(np.abs(np.diag(real_states[0][1])))
-        for j, (mu_r, S_r) in enumerate(real_states):
+        for j in range(min(L, len(real_states))):
+            mu_r, S_r = real_states[j]
             mu_m = mus[j * d:(j + 1) * d]
             S_m = [sig[j * d * d + a * d:j * d * d + (a + 1) * d] for a in range(d)]
             w = _cmp_state(data, mu_m, S_m, mu_r, S_r, sd0)
@@ -166,64 +308,77 @@ def _check_fit_case(c, data, tol, maxit, line, ans, r):
                 problems.append(f"iterate {j}: |model-real|/scale = {w:.3g}")
                 break
             worst = max(worst, w)
-        # the returned triple equals the last state the loop held
-        mu_m = mus[(k - 1) * d:k * d]
-        S_m = [sig[(k - 1) * d * d + a * d:(k - 1) * d * d + (a + 1) * d] for a in range(d)]
-        w = _cmp_state(data, mu_m, S_m, r["mu"], r["S"], sd0)
-        if not (w <= TOL_T):
-            problems.append(f"returned state: |model-real|/scale = {w:.3g}")
-        worst = max(worst, w)
+        if decidable and not problems:
+            # the returned triple equals the last state the loop held
+            mu_m = mus[(k - 1) * d:k * d]
+            S_m = [sig[(k - 1) * d * d + a * d:(k - 1) * d * d + (a + 1) * d] for a in range(d)]
+            w = _cmp_state(data, mu_m, S_m, r["mu"], r["S"], sd0)
+            if not (w <= TOL_T):
+                problems.append(f"returned state: |model-real|/scale = {w:.3g}")
+            worst = max(worst, w)
     if problems:
-        c.disagree(input=line[:200] + "...", model=ans[:200], impl=problems, data_hex=[f2hex(v) for v in data.ravel()],
-                   shape=[n, d], tol=tol, maxit=maxit)
+        c.disagree(input=line[:200] + "...", model=ans[:200], impl=problems, **info)
     c.stats["max_err_over_scale"] = max(c.stats.get("max_err_over_scale", 0.0), worst)
-    c.count("stop_" + want_stop)
+    c.count("stop_" + r["stop"])
     c.count("updates", max(0, len(real_states) - 1))
 
 
 def _fit_cases(rng, count, dmax=6):
     for t in range(count):
         d = rng.choice([1, 1, 2, 2, 2, 3, 3, 3, 4, 5, dmax])
-        n = rng.randint(4 * d, 200) if rng.random() < 0.8 else 4 * d + rng.randint(0, 3)
-        law = LAWS[t % 4]
         seed = rng.getrandbits(40)
         tol = rng.choice([1e-6, 1e-6, 1e-6, 1e-3, 1e-9])
         maxit = rng.choice([100, 100, 100, 100, 100, 100, 1, 2, 3, 5])
-        yield seed, d, n, law, tol, maxit
+        fail_at = rng.randint(0, 3) if rng.random() < 0.10 else None
+        fail_kind = rng.choice(["raise", "zero"])
+        if t % 5 == 4:
+            law = DEGEN[(t // 5) % len(DEGEN)]
+            n = (d + rng.randint(1, 2)) if law == "tiny_n" else rng.randint(2, 40)
+            n = max(n, 2)
+        else:
+            law = LAWS[t % 4]
+            n = rng.randint(4 * d, 200) if rng.random() < 0.8 else 4 * d + rng.randint(0, 3)
+        yield seed, d, n, law, tol, maxit, fail_at, fail_kind
+
+
+def make_data(seed, d, n, law):
+    return gen_degenerate(seed, d, n, law) if law in DEGEN else gen_data(seed, d, n, law)
 
 
 def correspond_fit(tier):
-    count = 520 if tier == "quick" else 6000
+    count = 650 if tier == "quick" else 7500
     rng = common.rng_for("C19.fit")
-    c = Corr("fit-T", "tolerance 1e-8 relative to per-entry scale (Float twin on the recorded nu tape; exact on stop reason / iterate count / nu)")
+    c = Corr("fit-T", "tolerance 1e-8 relative to per-entry scale (Float twin on the recorded opt_nu tape; exact on stop reason / "
+                      "iterate count / nu / warning unless a solve or Cholesky decision was taken on a matrix with rcond < 1e-6)")
     drv = common.Driver()
     lines, cases = [], []
-    for seed, d, n, law, tol, maxit in _fit_cases(rng, count):
-        data = gen_data(seed, d, n, law)
+    for seed, d, n, law, tol, maxit, fail_at, fail_kind in _fit_cases(rng, count):
+        data = make_data(seed, d, n, law)
+        degenerate = law in DEGEN
         try:
-            r = run_real(data, tol, maxit)
-        except Exception as e:  # the real code raising on generated (non-degenerate) data is a finding for `search`
+            r = run_real(data, tol, maxit, fail_at=fail_at, fail_kind=fail_kind)
+        except Exception as e:  # the real code raising is a finding for `search` (it must return its last valid estimate)
             c.disagree(input=f"gen seed={seed} d={d} n={n} law={law}", impl=f"raised {type(e).__name__}: {e}", model="-",
-                       data_hex=[f2hex(v) for v in data.ravel()], shape=[n, d], tol=tol, maxit=maxit)
-            c.case((seed, d, n, law, tol, maxit), False)
+                       data_hex=[f2hex(v) for v in data.ravel()], shape=[n, d], tol=tol, maxit=maxit, degenerate=degenerate)
+            c.case((seed, d, n, law, tol, maxit, fail_at, fail_kind), False)
             continue
-        inf = r["nu"] == math.inf
-        if len(r["solves"]) != len(r["nus"]) + (1 if inf else 0):
-            c.error = f"instrumentation: {len(r['solves'])} solve calls vs {len(r['nus'])} bisect calls (inf={inf})"
-            break
-        tape = list(r["nus"]) + (["inf"] if inf else [])
-        lines.append(_line(data, tape, tol, maxit))
-        cases.append((data, tol, maxit, r))
-        c.case((seed, d, n, law, tol, maxit), len(r["nus"]) >= 1)
+        lines.append(_line(data, r["tape"], tol, maxit))
+        cases.append((data, tol, maxit, r, degenerate))
+        c.case((seed, d, n, law, tol, maxit, fail_at, fail_kind), len(r["nus"]) >= 1 or r["stop"] in ("notpd", "fail", "chol"))
         c.count(f"d={d}")
         c.count("law_" + law)
+        if fail_at is not None and r["stop"] == "fail":
+            c.count("injected_bisect_failure_reached")
+        if fail_at is not None and r["stop"] == "chol" and any(isinstance(v, float) and v < 0 for v in r["tape"]):
+            c.count("injected_zero_weights_rejected_by_cholesky")
         if len(c.samples) < 2 and len(r["nus"]) >= 2 and n <= 12:
             c.sample({"gen": {"seed": seed, "d": d, "n": n, "law": law}, "tol": tol, "max_iter": maxit,
-                      "nu_tape": tape, "real": {"mu": r["mu"].tolist(), "Sigma": r["S"].tolist(), "nu": r["nu"]}})
+                      "opt_nu_tape": r["tape"], "stop": r["stop"],
+                      "real": {"mu": r["mu"].tolist(), "Sigma": r["S"].tolist(), "nu": r["nu"]}})
     if c.error is None and lines:
         res = drv.batch(lines)
-        for (data, tol, maxit, r), line, ans in zip(cases, lines, res):
-            _check_fit_case(c, data, tol, maxit, line, ans, r)
+        for (data, tol, maxit, r, degenerate), line, ans in zip(cases, lines, res):
+            _check_fit_case(c, data, tol, maxit, line, ans, r, degenerate)
     return c
 
 
@@ -400,6 +555,18 @@ def wellposed(data, **kw):
     return None
 
 
+def noraise(data, **kw):
+    """fit_mvstud never raises (LinAlgError / ValueError / anything) on finite data with n >= 2: on degenerate samples it
+    returns its last valid estimate"""
+    try:
+        mu, S, nu = _quiet_fit(data, **kw)
+    except Exception as e:  # noqa
+        return f"fit_mvstud raised {type(e).__name__}: {e} on finite data of shape {list(data.shape)}"
+    if mu.shape != (data.shape[1],) or S.shape != (data.shape[1], data.shape[1]):
+        return f"wrong shapes returned: mu {mu.shape}, Sigma {S.shape}"
+    return None
+
+
 def _rel_diff(mu1, S1, nu1, mu2, S2, nu2):
     sd = np.sqrt(np.abs(np.diag(S2)))
     e = float(np.max(np.abs(mu1 - mu2) / sd))
@@ -476,6 +643,11 @@ def _oracle_case(case):
         return recovery(case["seed"], case["nu_true"])
     n, d = case["shape"]
     data = np.array([hex2f(h) for h in case["data_hex"]], dtype=float).reshape(n, d)
+    if kind == "noraise":
+        kw = {}
+        if "tol" in case:
+            kw = {"tolerance": case["tol"], "max_iter": case["maxit"]}
+        return noraise(data, **kw)
     if kind == "wellposed":
         kw = {}
         if "tol" in case:
@@ -519,6 +691,10 @@ def search(tier, hints):
         if "data_hex" in h and "shape" in h:
             n, d = h["shape"]
             base = {"data_hex": h["data_hex"], "shape": [n, d]}
+            if consider(dict(base, kind="noraise", tol=h.get("tol", 1e-6), maxit=h.get("maxit", 100))):
+                return found
+            if h.get("degenerate"):
+                continue        # the remaining clauses are stated for non-degenerate data sets
             if consider(dict(base, kind="wellposed", tol=h.get("tol", 1e-6), maxit=h.get("maxit", 100))):
                 return found
             perm, pw, shift = transforms(np.array([hex2f(v) for v in h["data_hex"]], dtype=float).reshape(n, d))
@@ -533,7 +709,18 @@ def search(tier, hints):
         for fb in (1e6, 7.5):
             if consider({"kind": "dof", "dof_hex": f2hex(v), "fb": fb}):
                 return found
-    # 3. well-posedness and equivariance on generated data, d = 1..8
+    # 3. never raises on degenerate / barely determined finite data, d = 1..8, n >= 2
+    for t in range(200 if tier == "quick" else 4000):
+        d = 1 + t % 8
+        kind = DEGEN[(t // 8) % len(DEGEN)]
+        n = max(2, d + rng.randint(1, 2)) if kind == "tiny_n" else rng.randint(2, 60)
+        data = gen_degenerate(rng.getrandbits(40), d, n, kind)
+        case = {"data_hex": [f2hex(v) for v in data.ravel()], "shape": [n, d], "law": kind, "kind": "noraise"}
+        if t % 3 == 0:
+            case.update(tol=1e-9, maxit=rng.choice([1, 2, 5, 100]))
+        if consider(case):
+            return found
+    # 4. well-posedness and equivariance on generated (non-degenerate) data, d = 1..8
     count = 150 if tier == "quick" else 3000
     for t in range(count):
         d = 1 + t % 8
@@ -546,7 +733,7 @@ def search(tier, hints):
         perm, pw, shift = transforms(data)
         if consider(dict(base, kind="equiv", perm=perm, pw=pw, shift=shift)):
             return found
-    # 4. recovery of the generating parameters (loose)
+    # 5. recovery of the generating parameters (loose)
     for seed, nu_true in ((0, 3), (1, 5), (2, 3)) if tier == "quick" else ((0, 3), (1, 5), (2, 3), (3, 8), (4, 4), (5, 2.5)):
         if consider({"kind": "recovery", "seed": seed, "nu_true": nu_true}):
             return found
